@@ -324,3 +324,30 @@ def binary_name(left, right):
     if right is None or right == left:
         return left
     return None
+
+
+# ------------------------------------------------------------------ C19 CSV cells
+def csv_cell(text):
+    """None if empty or blank, else int if int() accepts the stripped text, else float if
+    float() does, else the stripped string."""
+    s = text.strip()
+    if s == '':
+        return None
+    try:
+        return int(s)
+    except ValueError:
+        pass
+    try:
+        return float(s)
+    except ValueError:
+        pass
+    return s
+
+
+# ------------------------------------------------------------------ C20 preview
+def preview_rows(n, half):
+    """Body rows shown for n data rows with `half` head rows and `half` tail rows: every row
+    when n <= 2*half, else first half + one ellipsis + last half."""
+    if n > 2 * half:
+        return 2 * half + 1
+    return n
